@@ -85,8 +85,27 @@ def _case(draw, tier):
     return {"atoms": atoms, "prior": prior, "revs": revs, "gpz": gpz, "fix_minus": fm_, "fix_plus": fp_, "ops": ops}
 
 
+@st.composite
+def _chain_case(draw, tier):
+    """'doubling chain': verifying conditional k forces falsifying all earlier ones while it has a
+    cheap falsifying world of its own, so the minimal gamma- components grow like 1, 2, 4 (known
+    behaviour of c-representations: impacts can be exponential in the number of conditionals)"""
+    perm = list(draw(st.permutations(gen.ATOMS[:5])))
+    a, b, c, d, e = [fm.V(x) if draw(st.integers(0, 3)) else fm.Not(fm.V(x)) for x in perm]
+    f1 = fm.And(a, fm.Not(b))                       # falsifies (b|a)
+    conds = [(b, a), (fm.And(f1, d), c), (fm.conj([f1, c, fm.Not(d)]), e)]
+    idxs = draw(st.lists(st.integers(1, 30), min_size=3, max_size=3, unique=True))
+    order = list(draw(st.permutations([0, 1, 2])))
+    revs = [[idxs[j], fm.to_json(conds[j][0]), fm.to_json(conds[j][1])] for j in order]
+    kind = draw(st.sampled_from(["zero", "zero", "small"]))
+    ranks = [0] * 32 if kind == "zero" else [draw(st.integers(0, 1)) for _ in range(32)]
+    return {"atoms": gen.ATOMS[:5], "prior": {"kind": "custom", "ranks": ranks}, "revs": revs,
+            "gpz": draw(st.booleans()), "fix_minus": {}, "fix_plus": {}, "ops": [], "chain": True}
+
+
 def strategy(tier):
-    return _case(tier)
+    return st.one_of(_case(tier), _case(tier), _case(tier), _case(tier), _case(tier), _case(tier),
+                     _case(tier), _case(tier), _case(tier), _chain_case(tier))
 
 
 # --------------------------------------------------------------------------------------
@@ -184,6 +203,10 @@ def run_case(case, ctx):
         if kappa is None:
             allr = prior.compute_all_ranks()
             kappa = [allr[world_str(w, n)] for w in range(1 << n)]
+            # every further prior is an object with exactly these ranks (a c-representation
+            # object built a second time may pick another Pareto-minimal impact vector)
+            ranks0 = list(kappa)
+            mk_prior = lambda: PreOCF.init_custom({world_str(w, n): ranks0[w] for w in range(1 << n)}, signature=list(atoms))
     except BaseException as e:  # noqa: BLE001
         ctx.stratum("skipped:prior-construction-failed")   # C16 / C17 own that
         return []
@@ -191,6 +214,8 @@ def run_case(case, ctx):
     if not revs or len({i for i, _, _ in revs}) != len(revs):
         return []
     ctx.stratum(f"prior:{'zero' if not any(kappa) else pk}")
+    if case.get("chain"):
+        ctx.stratum("family:doubling-chain")
     idxs = [i for i, _, _ in revs]
     sem = ref.Sem(atoms, [(B, A) for _, B, A in revs])
     gpz = bool(case["gpz"])
@@ -408,6 +433,6 @@ def shrink(case):
 
 
 def required_strata(tier):
-    return ["prior:custom", "prior:zero", "prior:z", "prior:c", "params-exist", "params-do-not-exist",
+    return ["family:doubling-chain", "prior:custom", "prior:zero", "prior:z", "prior:c", "params-exist", "params-do-not-exist",
             "minimality-checked", "zero-prior:c-representation-checked", "model-op:add", "model-op:remove",
             "model-op:readd", "model-op:replace"]
